@@ -93,6 +93,22 @@ def gen_cases(tier, seed):
             cases.append(" ".join(("gen %s %s %s %s %s %d %s - - - - - B4096" % (k, m, m, m, "6e6574", v, m if k == "reassoc_req" else "-")).split()))
         for k in ("assoc_resp", "reassoc_resp"):
             cases.append("gen %s %s %s %s - %d - - - - - - B4096" % (k, m, m, m, v))
+    # objects edited through their own setters after creation (the SSID moves behind the channel element on the first set, a second
+    # set then has to find it in a non-first position; repeated elements added in between), then dumped: S:<ssid> C:<channel>
+    for k in ("beacon", "probe_resp", "assoc_resp", "reassoc_resp"):
+        for _ in range(60 if tier == "quick" else 3000):
+            base = " ".join(one(rng, k).split()).split()
+            base = [x for x in base if not x.startswith("A:")]
+            ops = []
+            for _ in range(rng.randrange(1, 6)):
+                r = rng.random()
+                if r < 0.4 and k in ("beacon", "probe_resp"):
+                    ops.append("S:" + hx([rng.randrange(1, 256) for _ in range(rng.choice([0, 1, 5, 32]))]))
+                elif r < 0.8:
+                    ops.append("C:%d" % rng.randrange(256))
+                else:
+                    ops.append("A:%d:%s" % (rng.choice([0, 3, 7, 221]), hx([rng.randrange(256) for _ in range(rng.choice([0, 1, 4]))])))
+            cases.append(" ".join(base[:-1] + ops + [base[-1]]))
     for L in range(0, 256, 1 if tier != "quick" else 5):
         cases.append("gen beacon %s %s %s %s 1 - - - - - B400" % (m, m, m, rssid(rng, L)))
     if tier != "quick":
